@@ -17,6 +17,7 @@ func init() {
 		e.RNewlineScan()
 		e.RBlankLine()
 		e.RPackageCommentGap()
+		e.RGuard("fragger", "decorate", "restore")
 		e.RCommentLines()
 	})
 	register("C04", Meta{
